@@ -137,7 +137,13 @@ layers:
   - name: cov
     title: Source with coverage
     sources: [up_wms_cov]
+  - name: north
+    title: Cached layer of a source that covers the northern hemisphere only (empty tiles elsewhere)
+    sources: [c_north]
 caches:
+  c_north:
+    grids: [GLOBAL_MERCATOR]
+    sources: [up_wms_north]
   c_merc:
     grids: [GLOBAL_WEBMERCATOR]
     sources: [up_wms]
@@ -191,6 +197,14 @@ sources:
       srs: 'EPSG:4326'
     wms_opts:
       featureinfo: true
+  up_wms_north:
+    type: wms
+    req:
+      url: http://upstream.invalid/wmsn
+      layers: n
+    coverage:
+      bbox: [-180, 10, 180, 80]
+      srs: 'EPSG:4326'
   up_wms_dims:
     type: wms
     req:
@@ -205,7 +219,7 @@ sources:
     grid: GLOBAL_MERCATOR
 '''
 
-WMS_LAYERS = ['direct', 'cached', 'geo', 'tiled', 'dims', 'grp', 'grp_a', 'grp_b', 'legend', 'cov']
+WMS_LAYERS = ['direct', 'cached', 'geo', 'tiled', 'dims', 'grp', 'grp_a', 'grp_b', 'legend', 'cov', 'north']
 #: tile layer -> (grid name, tile size, image format extension)
 TILE_LAYERS = {
     'cached': ('GLOBAL_WEBMERCATOR', (256, 256), 'png'),
@@ -213,6 +227,7 @@ TILE_LAYERS = {
     'tiled': ('GLOBAL_MERCATOR', (256, 256), 'png'),
     'dims': ('GLOBAL_WEBMERCATOR', (256, 256), 'png'),
     'grp_b': ('small', (128, 128), 'png'),
+    'north': ('GLOBAL_MERCATOR', (256, 256), 'png'),
 }
 GRID_TILE_SIZE = {'GLOBAL_WEBMERCATOR': (256, 256), 'GLOBAL_GEODETIC': (256, 256), 'GLOBAL_MERCATOR': (256, 256),
                   'small': (128, 128)}
@@ -418,6 +433,17 @@ class Harness(object):
                                   b'<Title>a &amp; b</Title></Capabilities>')
             urllib.request.urlopen = fake_urlopen
             self._undo.append(lambda: setattr(urllib.request, 'urlopen', orig_urlopen))
+            # observation only: count answers that are the memoised per-layer "empty tile"
+            from mapproxy.service import tile as mtile
+            orig_empty = mtile.TileLayer.empty_response
+            self.empty_tiles = [0]
+            counter = self.empty_tiles
+
+            def counting_empty_response(layer, *a, **kw):
+                counter[0] += 1
+                return orig_empty(layer, *a, **kw)
+            mtile.TileLayer.empty_response = counting_empty_response
+            self._undo.append(lambda: setattr(mtile.TileLayer, 'empty_response', orig_empty))
         except BaseException:
             self.close()
             raise
@@ -432,25 +458,105 @@ class Harness(object):
         shutil.rmtree(self.root, ignore_errors=True)
 
     def execute(self, case):
-        """-> (wsgicall.Result, reached handler names)"""
+        """Run the call plan of a case.  -> list of Step (one per sent request, in completion order)"""
         self.upstream.modes = list(case.get('upstream') or ['ok'])
-        self.upstream.calls = 0
-        self.upstream.fi_calls = 0
-        self.upstream.fi_lied = False
-        self.upstream.lies = []
-        del self.reached[:]
         del self.selffetch[:]
-        env = wsgicall.build_environ(case.get('method', 'GET'), case['path'], case.get('query', ''),
-                                     [tuple(h) for h in case.get('headers', [])],
-                                     file_wrapper=case.get('fw', True))
+        self.empty_tiles[0] = 0
+        ops = expand_plan(case.get('plan') or 'single')
+        if case.get('warmup'):
+            ops = ops + [(op, i + 100, r) for op, i, r in ops]
+        pending, steps, begun = {}, [], 0
         try:
-            res = wsgicall.call(self.app, env)
+            for op, inst, which in ops:
+                if op == 'B':
+                    req = case if which == 0 else neighbour_of(case)
+                    self.upstream.calls = 0
+                    self.upstream.fi_calls = 0
+                    self.upstream.fi_lied = False
+                    self.upstream.lies = []
+                    del self.reached[:]
+                    env = wsgicall.build_environ(req.get('method', 'GET'), req['path'], req.get('query', ''),
+                                                 [tuple(h) for h in req.get('headers', [])],
+                                                 file_wrapper=req.get('fw', True))
+                    pend = wsgicall.begin(self.app, env)
+                    pending[inst] = Step(req, pend, list(self.reached), self.upstream, begun)
+                    begun += 1
+                else:
+                    st_ = pending.pop(inst)
+                    st_.res = wsgicall.complete(st_.pending)
+                    steps.append(st_)
+            for inst in sorted(pending):     # plans always complete what they begin; belt and braces
+                st_ = pending.pop(inst)
+                st_.res = wsgicall.complete(st_.pending)
+                steps.append(st_)
         finally:
             for d in ('cache_data', 'locks', 'tile_locks'):
                 p = os.path.join(self.root, d)
                 if os.path.isdir(p):
                     shutil.rmtree(p, ignore_errors=True)
-        return res, list(self.reached)
+        return steps
+
+
+class Step(object):
+    """one request of a call plan: the request, its result and what the upstream did while it was handled"""
+
+    def __init__(self, req, pending, reached, upstream, order):
+        self.req, self.pending, self.reached, self.order = req, pending, reached, order
+        self.res = None
+        self.calls, self.fi_calls, self.fi_lied = upstream.calls, upstream.fi_calls, upstream.fi_lied
+        self.lies = list(upstream.lies)
+
+
+#: call plans: A = the request itself, N = its neighbour (neighbour_of); "(..)" = the responses are begun (application
+#: called, body not consumed) in the written order before any of them is consumed, "r" = consumed in reverse order.
+#: A response is always consumed completely and then closed (PEP 3333) when it is completed.
+PLANS = {
+    'single': 'A',
+    'twice': 'A A',
+    'thrice': 'A A A',
+    'neighbour-after': 'A N',
+    'neighbour-between': 'A N A',
+    'neighbour-first': 'N A',
+    'overlap-same': '(A A)',
+    'overlap-neighbour': '(A N)',
+    'overlap-reversed': '(A N)r',
+    'warm-overlap': 'A (A N)',
+    'warm-overlap-reversed': 'N (N A)r',
+}
+
+
+def expand_plan(name):
+    """-> list of ('B' begin | 'C' complete, instance number, 0 = the request itself / 1 = its neighbour)"""
+    spec = PLANS.get(name, 'A')
+    ops, inst = [], 0
+    for tok in re.findall(r'\([AN ]+\)r?|[AN]', spec):
+        if tok[0] == '(':
+            members = [(inst + i, 0 if m_ == 'A' else 1) for i, m_ in enumerate(re.findall(r'[AN]', tok))]
+            inst += len(members)
+            ops += [('B', i, w) for i, w in members]
+            ops += [('C', i, w) for i, w in (reversed(members) if tok.endswith('r') else members)]
+        else:
+            ops += [('B', inst, 0 if tok == 'A' else 1), ('C', inst, 0 if tok == 'A' else 1)]
+            inst += 1
+    return ops
+
+
+def neighbour_of(case):
+    """A request next to `case` (pure function of the case): the neighbouring tile column for tile addresses in
+    the path or in TILECOL, otherwise the same request with one more (ignored) parameter."""
+    n = dict(case)
+    path = wsgicall.to_wire(case['path'])
+    m_ = re.search(r'/(\d{1,9})/(-?\d+)(\.\w+)$', path)
+    if m_:
+        n['path'] = path[:m_.start(1)] + str(int(m_.group(1)) + 1) + path[m_.end(1):]
+        return n
+    q = wsgicall.to_wire(case.get('query', ''))
+    m_ = re.search(r'(?i)(^|&)(tilecol=)(\d{1,9})(?=&|$)', q)
+    if m_:
+        n['query'] = q[:m_.start(3)] + str(int(m_.group(3)) + 1) + q[m_.end(3):]
+        return n
+    n['query'] = q + ('&' if q else '') + 'zq9n=1'
+    return n
 
 
 _HARNESS = None
@@ -663,9 +769,10 @@ def request_text(case):
                      + [v for _, v in case.get('headers', [])])
 
 
-def judge(case, res, reached, h, st_):
+def judge(case, res, reached, h, st_, up=None):
     """-> list of (signature, message) for one executed case; also returns response classes via st_ (a list)."""
     out = []
+    up = up if up is not None else h.upstream
     seg, rt, p, args = request_kind(case)
     where = '%s.%s' % (reached[0] if reached else 'none', rt)
     # 1. the call returns
@@ -704,7 +811,7 @@ def judge(case, res, reached, h, st_):
         out.append((sig(code, where), msg))
     # 4. images
     if ct.startswith('image/') and res.code == 200:
-        if any(body == lie for lie in h.upstream.lies):
+        if any(body == lie for lie in up.lies):
             st_.append('image:upstream-lie-passed-through')
         elif rt == 'static' or (ct == 'image/svg+xml'):
             st_.append('image:static-file')
@@ -741,7 +848,7 @@ def judge(case, res, reached, h, st_):
                     if img.size != exp:
                         out.append((sig('image', 'size', where), 'image is %r, requested %r' % (img.size, exp)))
     # 5. feature info passed through from an upstream that answered with another type than asked for
-    elif res.code == 200 and h.upstream.fi_calls and h.upstream.fi_lied:
+    elif res.code == 200 and up.fi_calls and up.fi_lied:
         st_.append('featureinfo:upstream-lie-passed-through')
         for code, msg in markup.check_html(body):
             out.append((sig(code, where), 'feature info answer (status %s): %s' % (res.code, msg)))
@@ -921,8 +1028,12 @@ def wmts_kvp_base(draw):
     tag = 'wmts-kvp.' + req
     if req == 'caps':
         return path, p, tag
-    layer = draw(st.sampled_from(list(TILE_LAYERS) + ['direct', 'nolayer']))
+    layer = draw(st.sampled_from(list(TILE_LAYERS) + ['north', 'direct', 'nolayer']))
     grid, z, x, y = draw(tile_addr(layer))
+    if layer == 'north' and req == 'tile' and draw(st.booleans()):
+        z = str(draw(st.integers(3, 6)))       # southern rows: empty tile
+        x, y = str(draw(st.integers(0, 2 ** int(z) - 2))), str(2 ** int(z) - 1 - draw(st.integers(0, 2 ** int(z) // 2 - 2)))
+        tag += '.empty-tile'
     if draw(st.integers(0, 7)) == 0:
         grid = draw(st.sampled_from(GRIDS + ['nogrid']))
     fmt = draw(st.sampled_from(['image/png', 'image/jpeg', 'image/' + TILE_LAYERS.get(layer, ('', '', 'png'))[2], 'png', 'image/gif']))
@@ -947,7 +1058,20 @@ def path_base(draw):
     """tile-ish services addressed by path: (segments, params, tag)"""
     kind = draw(st.sampled_from(['tms-tile', 'tms-tile', 'tiles-tile', 'tms-caps', 'tms-caps', 'kml-tile', 'kml-init', 'kml-kml',
                                  'wmts-rest', 'wmts-rest', 'wmts-rest-fi', 'wmts-rest-caps', 'demo', 'demo', 'demo', 'demo-static',
-                                 'root', 'unknown']))
+                                 'root', 'unknown', 'empty-tile', 'empty-tile']))
+    if kind == 'empty-tile':
+        # a tile of the layer 'north' that lies south of its source coverage: answered with the per-layer empty tile
+        z = draw(st.integers(3, 6))
+        n = 2 ** z
+        x, y = draw(st.integers(0, n - 2)), draw(st.integers(0, n // 2 - 2))
+        svc = draw(st.sampled_from(['tms', 'tiles', 'kml', 'wmts']))
+        if svc == 'wmts':
+            segs = ['wmts', 'north', 'GLOBAL_MERCATOR', 'default', 'default', str(z), str(x), '%d.png' % (n - 1 - y)]
+        elif svc == 'tms':
+            segs = ['tms', '1.0.0', 'north', 'GLOBAL_MERCATOR', str(z), str(x), '%d.png' % y]
+        else:
+            segs = [svc, 'north', 'GLOBAL_MERCATOR', str(z), str(x), '%d.png' % y]
+        return segs, [], 'empty-tile.' + svc
     layer = draw(st.sampled_from(list(TILE_LAYERS) * 4 + ['direct', 'nolayer', 'cached_EPSG900913']))
     grid, z, x, y = draw(tile_addr(layer))
     ext = draw(st.sampled_from([TILE_LAYERS.get(layer, ('', '', 'png'))[2]] * 9 + ['png', 'jpeg', 'jpg', 'gif', 'kml', 'PNG', 'xml']))
@@ -1115,6 +1239,8 @@ def cases(draw):
         segs, params, tag = draw(path_base())
     tags.append('base:' + tag)
     nmut = draw(st.sampled_from([0, 0, 0, 1, 1, 1, 1, 2, 2, 3]))
+    if 'empty-tile' in tag:
+        nmut = draw(st.sampled_from([0, 0, 0, 0, 1]))
     for _ in range(nmut):
         target = draw(st.sampled_from(['param', 'param', 'param', 'param', 'seg', 'key', 'extra']))
         if target == 'param' and params:
@@ -1194,8 +1320,13 @@ def cases(draw):
     method = draw(st.sampled_from(['GET'] * 8 + ['POST', 'HEAD', 'OPTIONS', 'get']))
     n_up = draw(st.sampled_from([1, 1, 1, 2, 3]))
     upstream = [draw(st.sampled_from(UPSTREAM_MODES)) for _ in range(n_up)]
-    fw = draw(st.integers(0, 4)) > 0
-    return {'method': method, 'path': path, 'query': query, 'headers': headers, 'upstream': upstream, 'fw': fw,
+    fw = draw(st.integers(0, 3)) > 0
+    plan = draw(st.sampled_from(['single'] * 10 + ['twice', 'twice', 'thrice', 'neighbour-after', 'neighbour-between',
+                                                   'neighbour-first', 'overlap-same', 'overlap-neighbour', 'overlap-reversed',
+                                                   'warm-overlap', 'warm-overlap-reversed']))
+    if 'empty-tile' in tag and plan == 'single' and draw(st.integers(0, 3)) > 0:
+        plan = draw(st.sampled_from([p_ for p_ in PLANS if p_ != 'single']))
+    return {'plan': plan, 'method': method, 'path': path, 'query': query, 'headers': headers, 'upstream': upstream, 'fw': fw,
             'tags': tags}
 
 
@@ -1226,7 +1357,7 @@ def open_signatures():
 
 def case_key(case):
     return [case.get('method', 'GET'), case['path'], case.get('query', ''), case.get('headers', []),
-            case.get('upstream', ['ok'])]
+            case.get('upstream', ['ok']), case.get('plan') or 'single', bool(case.get('fw', True))]
 
 
 def evaluate(case, stats, h=None, apply_exclusions=True):
@@ -1241,28 +1372,44 @@ def evaluate(case, stats, h=None, apply_exclusions=True):
             for k in keys:
                 stats.excluded[k] += 1
             case = sanitize(case, keys)
-    res, reached = h.execute(case)
-    classes = []
-    found = judge(case, res, reached, h, classes)
+    steps = h.execute(case)
+    classes, found = [], []
+    plan = case.get('plan') or 'single'
+    for step in steps:
+        cl = []
+        f = judge(step.req, step.res, step.reached, h, cl, up=step)
+        classes += cl
+        for s_, msg in f:
+            found.append((s_, msg + ' | ' + describe(step.req, step.res) +
+                          ('' if plan == 'single' and not case.get('warmup') else
+                           ' [request %d of %d, call plan %s = %s%s]' % (step.order + 1, len(steps), plan, PLANS.get(plan, 'A'),
+                                                                         ', run twice' if case.get('warmup') else ''))))
+        seg, rt, _, _ = request_kind(step.req)
+        classes.append('handler:%s' % (step.reached[0] if step.reached else 'none(404/welcome)'))
+        if step.reached:
+            classes.append('req:%s.%s' % (step.reached[0], rt))
+        if step.calls:
+            classes.append('upstream-called')
+            classes += ['upstream:' + m for m in set(case.get('upstream') or ['ok'])]
     for c in [c for c in classes if c.startswith('note:')]:
         stats.notes[c[5:]] += 1
     classes = [c for c in classes if not c.startswith('note:')]
-    seg, rt, _, _ = request_kind(case)
-    classes.append('handler:%s' % (reached[0] if reached else 'none(404/welcome)'))
-    if reached:
-        classes.append('req:%s.%s' % (reached[0], rt))
-    if h.upstream.calls:
-        classes.append('upstream-called')
-        classes += ['upstream:' + m for m in set(case.get('upstream') or ['ok'])]
+    classes.append('plan:' + plan)
+    classes.append('file_wrapper:' + ('yes' if case.get('fw', True) else 'no'))
+    if h.empty_tiles[0]:
+        classes.append('empty-tile-answered')
+        if h.empty_tiles[0] > 1:
+            classes.append('empty-tile-answered-more-than-once-in-a-case')
     if h.selffetch:
         classes.append('demo-selffetch')
-    stats.case(key=case_key(case), nontrivial=bool(reached), classes=classes + tags,
+    stats.extra['requests_sent'] = stats.extra.get('requests_sent', 0) + len(steps)
+    stats.case(key=case_key(case), nontrivial=any(st_.reached for st_ in steps), classes=classes + tags,
                sample={k: (v if not isinstance(v, str) or len(v) < 400 else v[:400] + '...') for k, v in case.items()})
     seen, out = set(), []
-    for s, msg in found:
-        if s not in seen:
-            seen.add(s)
-            out.append(core.Violation(s, msg + ' | ' + describe(case, res), case))
+    for s_, msg in found:
+        if s_ not in seen:
+            seen.add(s_)
+            out.append(core.Violation(s_, msg, case))
     return out
 
 
@@ -1285,12 +1432,34 @@ def check_case(case, stats):
 
 def grammar_shard(shard, nshards, seed, tier):
     st_ = core.Stats()
-    n = (36000 if tier == 'quick' else 1200000) // nshards
+    n = (30000 if tier == 'quick' else 1000000) // nshards
     try:
         core.hyp_search(cases(), check_case, st_, max_examples=n, seed=seed, max_signatures=3)
     finally:
         close_harness()
+    standalone_violations(st_)
     return st_
+
+
+def standalone_violations(st_):
+    """The application object lives for a whole shard, so an answer can depend on requests of earlier cases (memoised
+    objects).  Every violation found is therefore re-executed on a fresh application; when it does not reproduce
+    there, the same call plan run twice in a row is tried, and the reported (replayable) case is the form that
+    reproduces stand-alone.  A violation that reproduces in neither form is still reported, and says so."""
+    for v in st_.violations:
+        for variant in ({}, {'warmup': True}):
+            case = dict(v.case, **variant)
+            try:
+                vs = evaluate(case, core.Stats(), apply_exclusions=False)
+            finally:
+                close_harness()
+            hit = [x for x in vs if x.signature == v.signature]
+            if hit:
+                v.case, v.message = hit[0].case, hit[0].message
+                break
+        else:
+            st_.notes['violation depends on requests of earlier cases (not reproduced stand-alone)'] += 1
+            v.message += ' [found with an application that had served earlier cases; not reproduced stand-alone]'
 
 
 def run(tier, seed, stats):
@@ -1331,7 +1500,7 @@ FUZZ_DICT = ['SERVICE=WMS', 'SERVICE=WMTS', 'REQUEST=GetMap', 'REQUEST=GetFeatur
              'GLOBAL_WEBMERCATOR', 'GLOBAL_GEODETIC', 'GLOBAL_MERCATOR', 'small', 'default', '/0/0/0.png', '/1/0/0.jpeg', '.kml',
              '.geojson', '.html', '.gml', 'X-Forwarded-Host: ', 'X-Forwarded-Proto: ', 'X-Script-Name: /', 'Host: ',
              'If-None-Match: ', 'If-Modified-Since: ', 'Accept: ', '\n', '&', '=', '%00', '%0d%0a', '%3C', '%22', '%26', '%27', '%FF',
-             '!ok', '!noconn', '!text', '!garbage', '!http500', '!xmlexc', '!truncated'] + WMS_LAYERS + \
+             '!ok', '!noconn', '!text', '!garbage', '!http500', '!xmlexc', '!truncated', '#nofw'] + ['#' + p_ for p_ in PLANS] + WMS_LAYERS + \
             [quote(m_, safe='') for m_ in markup.MARKERS] + markup.MARKERS
 
 FUZZ_SEEDS = [
@@ -1345,6 +1514,7 @@ FUZZ_SEEDS = [
     '/wmts/1.0.0/WMTSCapabilities.xml', '/wmts/dims/GLOBAL_WEBMERCATOR/2020-01-01/0/1/0/0.png', '/wmts/cached/GLOBAL_WEBMERCATOR/default/default/1/0/0/5/5.geojson',
     '/tms/1.0.0/', '/tms/1.0.0/cached/GLOBAL_WEBMERCATOR', '/tms/1.0.0/geo/GLOBAL_GEODETIC/1/0/0.jpeg\nIf-None-Match: x', '/tiles/tiled/GLOBAL_MERCATOR/1/0/0.png?origin=nw\n!garbage',
     '/kml/cached/GLOBAL_WEBMERCATOR', '/kml/cached/GLOBAL_WEBMERCATOR/1/0/0.kml', '/kml/grp_b/small/0/0/0.png',
+    '/tms/1.0.0/north/GLOBAL_MERCATOR/4/0/0.png\n#twice', '/wmts/north/GLOBAL_MERCATOR/default/default/4/0/15.png\n#overlap-neighbour\n#nofw',
     '/demo/', '/demo/?wms_layer=direct&srs=EPSG:4326&format=image/png', '/demo/?tms_layer=cached&srs=EPSG:3857&format=png',
     '/demo/?wmts_layer=cached&srs=EPSG:3857&format=png', '/demo/?wms_capabilities&type=external\nX-Forwarded-Host: a.example',
     '/demo/?tms_capabilities&layer=cached&srs=EPSG900913', '/demo/static/site.css', '/', '/nothing',
@@ -1360,8 +1530,14 @@ def fuzz_input_to_case(data):
     path = re.sub(r'[\x00-\x20\x7f?#]', lambda m_: '%%%02X' % ord(m_.group(0)), path)
     if not path.startswith('/'):
         path = '/' + path
-    headers, upstream = [], ['ok']
+    headers, upstream, plan, fw = [], ['ok'], 'single', True
     for ln in lines[1:8]:
+        if ln.startswith('#'):
+            if ln[1:] in PLANS:
+                plan = ln[1:]
+            elif ln[1:] == 'nofw':
+                fw = False
+            continue
         if ln.startswith('!'):
             ms = [x for x in ln[1:].split(',') if x in UPSTREAM_MODES]
             if ms:
@@ -1373,7 +1549,7 @@ def fuzz_input_to_case(data):
         if name.lower() in ('content-length', 'transfer-encoding'):
             continue
         headers.append([name, re.sub(r'[\x00-\x1f\x7f]', '', value).strip()])
-    return {'method': 'GET', 'path': path, 'query': query, 'headers': headers, 'upstream': upstream, 'fw': True}
+    return {'plan': plan, 'method': 'GET', 'path': path, 'query': query, 'headers': headers, 'upstream': upstream, 'fw': fw}
 
 
 def fuzz_oversized(case):
@@ -1499,8 +1675,13 @@ def fuzz_campaign(seed, stats, workers=None, runs=None):
                     rec = json.load(f)
                 if rec['signature'] in done:
                     continue
-                vs = evaluate(rec['case'], core.Stats(), apply_exclusions=False)
-                hit = [v for v in vs if v.signature == rec['signature']] or vs
+                hit = []
+                for variant in ({}, {'warmup': True}):      # fresh application; then the call plan run twice
+                    close_harness()
+                    vs = evaluate(dict(rec['case'], **variant), core.Stats(), apply_exclusions=False)
+                    hit = [v for v in vs if v.signature == rec['signature']] or vs
+                    if hit:
+                        break
                 if hit:
                     done.add(rec['signature'])
                     stats.violations.append(hit[0])
